@@ -54,6 +54,10 @@ class Mini(spa.Network):
         self.vocab = vocab
 
 
+class SubNet(spa.Network):
+    """a user-defined container class (subclasses of spa.Network are SPA networks like any other)"""
+
+
 def make_module(cls, value, **kw):
     if cls == "Mini":
         return Mini(value, **kw)
@@ -215,7 +219,8 @@ class Build:
             return net
         g = t[1] if t[1] is not None else gov
         if t[0] in "SZ":
-            net = spa.Network(**self.kw(t[1], t[2])) if t[0] == "S" else spa.Scalar(**self.kw(t[1], t[2]))
+            container = SubNet if i % 2 == 1 else spa.Network          # every second container is a subclass instance
+            net = container(**self.kw(t[1], t[2])) if t[0] == "S" else spa.Scalar(**self.kw(t[1], t[2]))
             self.reg(net)
             self.obs.append(dict(net=i, root=root, gov=g, map=net.vocabs, res=("C",), arg=None))
             if t[0] == "S":
@@ -653,9 +658,44 @@ def malformed_part(ctx, R):
         R.sequence(batch, "malformed")
 
 
+def every_vocab_parameter(ctx):
+    """'dimensionalities below 1 are rejected' for EVERY vocabulary-or-dimensionality parameter of the SPA modules
+    (oracle only; 4 is the sanity value that must be accepted)"""
+    ctors = {
+        "State(v)": lambda v: spa.State(v, subdimensions=1),
+        "Bind(v)": lambda v: spa.Bind(v),
+        "Compare(v)": lambda v: spa.Compare(v),
+        "Superposition(2, v)": lambda v: spa.Superposition(2, v),
+        "Transcode(input_vocab=v)": lambda v: spa.Transcode(lambda t, x: x, input_vocab=v, output_vocab=4),
+        "Transcode(output_vocab=v)": lambda v: spa.Transcode(lambda t, x: x, input_vocab=4, output_vocab=v),
+        "ThresholdingAssocMem(input_vocab=v)": lambda v: spa.ThresholdingAssocMem(0.3, input_vocab=v, mapping=["A"]),
+        "ThresholdingAssocMem(output_vocab=v)": lambda v: spa.ThresholdingAssocMem(0.3, input_vocab=4, output_vocab=v, mapping={"A": "A"}),
+        "WTAAssocMem(output_vocab=v)": lambda v: spa.WTAAssocMem(0.3, input_vocab=4, output_vocab=v, mapping={"A": "A"}),
+        "IAAssocMem(output_vocab=v)": lambda v: spa.IAAssocMem(input_vocab=4, output_vocab=v, mapping={"A": "A"}),
+        "IAAssocMem(input_vocab=v)": lambda v: spa.IAAssocMem(input_vocab=v, mapping=["A"]),
+    }
+    for name, mk in ctors.items():
+        for v in (4, 0, -1, -16, np.int64(0), np.int64(-3)):
+            ctx.count(f"vocab-param {name} {v!r}", nontrivial=True, branch="every-vocab-parameter")
+            try:
+                with warnings.catch_warnings():
+                    warnings.simplefilter("ignore")
+                    with spa.Network():
+                        mk(v)
+                got = "accepted"
+            except ValidationError:
+                got = "ValidationError"
+            except Exception as e:  # noqa: BLE001
+                got = type(e).__name__
+            want = "accepted" if v == 4 else "ValidationError"
+            if got != want:
+                ctx.fail({"op": "vocab-parameter", "constructor": name, "value": repr(v)}, got, want, where="rejects-bad-dims")
+
+
 def run(ctx):
     rng = ctx.rng
     R = Run(ctx)
+    every_vocab_parameter(ctx)
     quick = ctx.tier == "quick"
     # ---- bounded-exhaustive trees ----
     two_leaf = enum_trees(3, [leaf(4), leaf(6)], CONTAINERS, 2)                       # 1661
